@@ -410,4 +410,28 @@ def hLeaf (m : HMode) (rev : HRow) (old new : List HRow) : Except Err (List (Yie
 def cLeaf {χ : Type} (m : CMode) (catalyst : Bool) (old new : List CRow) : Except Err (List (Yield CRow χ)) :=
   cLogic m catalyst ((leafBuckets old new).map leafAction)
 
+/-! ### port-channel members (cisco/iface.py:5-10, 39-66; nexus/iface.py:8-12, 45-66)
+
+Before the rows of an interface block reach the VLAN logic, the interface diff logic of the vendor deletes, from each side
+that has a `channel-group` row, every command that is not allowed on a port-channel member (they are taken to be inherited
+from the port-channel).  Cisco IOS's list has `switchport host` only — a member's `switchport trunk allowed vlan …` rows are
+deleted; NX-OS's list has `switchport`. -/
+inductive IfaceDiff where
+  | cisco | nexus
+  deriving Repr, DecidableEq
+
+/-- is a `switchport trunk allowed vlan …` row kept by `_is_allowed_on_channel`? -/
+def switchportAllowedOnMember : IfaceDiff → Bool
+  | .cisco => false
+  | .nexus => true
+
+/-- `_filter_channel_members` seen from the VLAN rows of one side -/
+def memberRows (d : IfaceDiff) (member : Bool) (rows : List CRow) : List CRow :=
+  if member && !switchportAllowedOnMember d then [] else rows
+
+/-- the VLAN logic of an interface block whose sides may be port-channel members -/
+def cLeafIface {χ : Type} (d : IfaceDiff) (m : CMode) (catalyst oldMember newMember : Bool) (old new : List CRow) :
+    Except Err (List (Yield CRow χ)) :=
+  cLeaf m catalyst (memberRows d oldMember old) (memberRows d newMember new)
+
 end Annet.Vlan
